@@ -103,3 +103,9 @@ claim("C04", "other", "effect/provenance analysis of __call__, sibling agreement
       "array-element parameters are re-inserted at their ordinal positions.",
       "Not decided: the numerical commutation itself (values after lambdify equal values after re-parsing the substituted text) - runtime arithmetic. Known finding: arrayvar's bare `parameter` alternative (see C02).",
       "DESIGN.md 5/C04")
+
+claim("C15", "other", "finite-model evaluation of the p-type predicates (listener and both serialiser copies) and of the registration guard, who-may-write rule on the parameter table, structural checks of the evaluator branch, serialiser template analysis",
+      "Decides: the three copies of the p-type predicate agree on a fixed set of model strings and the serialiser copies additionally require type tdm; p-arrays are registered iff tdm and p-type, before the store; the evaluator returns the name "
+      "exactly for registered names after the array check; p-names are filtered out of the published parameters; only recognised writers touch the parameter table; tdm variable declarations are written in the language of the declaration they are.",
+      "Not decided: array element values (library formatting).",
+      "DESIGN.md 5/C15")
